@@ -187,7 +187,9 @@ def main():
             mm = re.search(r'replay=(\S+)', line)
             if mm and os.path.exists(mm.group(1)):
                 d = json.load(open(mm.group(1)))
-                broke = ', '.join(sorted({(b[0] if isinstance(b, (list, tuple)) else str(b)[:20]) for b in d.get('broken', [])})) or 'search only'
+                bl = [(b[0] if isinstance(b, (list, tuple)) else str(b)[:20]) for b in d.get('broken', [])] + \
+                     [b.get('what', '?') for b in d.get('no_longer_checks', [])]
+                broke = ', '.join(sorted(set(bl))) or 'search only'
                 key = str((d.get('violation') or {}).get('key') or d.get('kind'))
             verdict = 'VIOLATION' if line.startswith('VIOLATION') else 'held'
             if 'no-failing-input-found' in line:
